@@ -78,7 +78,7 @@ def spec_actions():
 # ----------------------------------------------------------------------------------------------------------------
 def design(ctx):
     q = ctx.quick
-    depth = 2 if q else 3
+    depth = 2
     groups = [["x86mem"], ["a64mem", "basemem"], ["x86reg", "a64reg"], ["imm", "label", "reglist", "regonly", "env"]]
     total = gen = 0
 
@@ -91,7 +91,18 @@ def design(ctx):
             vlib.tlc_must_ok(ctx, r, f"OperandMC {g} (TypeInv/Lossless/DocInv/Frame/RoundTrip)")
             total += r.distinct
             gen += r.generated
-    ctx.log(f"design: {total} distinct abstract operand states, {gen} transitions checked (BFS levels <= {depth})")
+    if not q:
+        # long random walks of the contract with every invariant / action property on (the exhaustive part is bounded to 2 calls)
+        def sim(g):
+            cfg = mc_cfg(ctx, "mcsim_" + g[0], g, 1000)
+            return g, vlib.run_tlc(ctx, MC, cfg, workers=2, timeout=1700, heap="3g", tag="mcsim_" + g[0], simulate=3000, depth=40, seed=ctx.seed + 5)
+        with concurrent.futures.ThreadPoolExecutor(max_workers=4) as ex:
+            for g, r in ex.map(sim, groups):
+                if r.kind != "ok":
+                    raise Broken(f"OperandMC simulation {g}: kind={r.kind} violated={r.violated}\n" + r.out[-1500:])
+                m = re.search(r"The number of states generated: (\d+)", r.out)
+                gen += int(m.group(1)) if m else 0
+    ctx.log(f"design: {total} distinct abstract operand states, {gen} transitions checked (BFS levels <= {depth}{'' if q else ' + random walks of 40 calls'})")
     ctx.extra["design_states"] = total
     ctx.extra["design_transitions"] = gen
     # negative controls: the invariants are not vacuous
@@ -257,24 +268,36 @@ def report_obs(ctx, bdir, rejects):
         if clause == "harness":
             raise Broken(f"malformed observation (precondition not established by the harness): {json.dumps(o)[:300]}")
         groups.setdefault(obs_key(o, clause), []).append(o)
+    if not groups:
+        return
     os.makedirs(ctx.out + ".replay", exist_ok=True)
+    # second run: every rejected group is re-executed on the code (one harness call) and judged again (one TLC run); a rejection must repeat
+    allp, rps = ctx.path("rejected_all.ndjson"), {}
+    sample = []
     for key, obs in groups.items():
         safe = re.sub(r"[^A-Za-z0-9_.-]", "_", key)
-        rp = os.path.join(ctx.out + ".replay", f"reject_{safe}.ndjson")
-        vlib.write_ndjson(rp, obs[:10] + (obs[-10:] if len(obs) > 20 else obs[10:20]))
-        again = ctx.path(f"reject_{safe}.again.ndjson")
-        rc, _, err = vlib.run_harness(ctx, bdir, "opmodel", ["replay", rp, again], timeout=300)
-        if rc != 0:
-            raise Broken(f"replay of rejected observations failed rc={rc}: {err[-500:]}")
-        rj2 = tlc_pointwise(ctx, [l for l in open(again).read().splitlines() if l], f"confirm_{safe[:40]}", 1)
-        if not rj2:
+        rps[key] = os.path.join(ctx.out + ".replay", f"reject_{safe}.ndjson")
+        ex = obs[:10] + (obs[-10:] if len(obs) > 20 else obs[10:20])
+        vlib.write_ndjson(rps[key], ex)
+        sample += ex[:4]
+    vlib.write_ndjson(allp, sample)
+    again = ctx.path("rejected_all.again.ndjson")
+    rc, _, err = vlib.run_harness(ctx, bdir, "opmodel", ["replay", allp, again], timeout=300)
+    if rc != 0:
+        raise Broken(f"replay of rejected observations failed rc={rc}: {err[-500:]}")
+    repeated = {obs_key(o, c) for o, c in tlc_pointwise(ctx, [l for l in open(again).read().splitlines() if l], "confirm", 2)}
+    for key, obs in groups.items():
+        if key not in repeated:
             raise Broken(f"rejection {key} did not repeat on re-execution")
-        msg = f"{len(obs)} rejected row(s), e.g. {json.dumps(obs_input(obs[0]), separators=(',', ':'))[:200]} -> {json.dumps({k: v for k, v in list(obs[0].items())[len(obs_input(obs[0])) + 1:][:6]}, separators=(',', ':'))[:200]}"
+        o0 = obs[0]
+        inp = obs_input(o0)
+        outp = {k: v for k, v in list(o0.items())[len(inp) + 1:][:6]}
+        msg = f"{len(obs)} rejected row(s), e.g. {json.dumps(inp, separators=(',', ':'))[:200]} -> {json.dumps(outp, separators=(',', ':'))[:200]}"
         ctx.extra.setdefault("rejected_groups", {})[key] = len(obs)
         if key in ctx.known:
             ctx.known_finding(key, ctx.known[key] + f" [{len(obs)} rows in this run]")
         else:
-            ctx.violation(f"{key}: {msg}", rp)
+            ctx.violation(f"{key}: {msg}", rps[key])
 
 
 # ----------------------------------------------------------------------------------------------------------------
@@ -320,7 +343,7 @@ def run(ctx):
     if rc != 0:
         raise Broken(f"harness tables failed rc={rc}: {e2[-800:]}")
     ob = ctx.path("obs.ndjson")
-    nobs = 6000 if q else 80000
+    nobs = 5000 if q else 80000
     rc, _, e2 = vlib.run_harness(ctx, bplain, "opmodel", ["observe", ob, nobs], timeout=600, env=env)
     if rc != 0:
         raise Broken(f"harness observe failed rc={rc}: {e2[-800:]}")
